@@ -77,6 +77,8 @@ pub struct View {
     pub vc: [u32; MAXT],
     /// number of SeqCst events of each thread that happen-before this point
     pub sc: [u32; MAXT],
+    /// number of SeqCst fences of each thread that happen-before this point
+    pub fz: [u32; MAXT],
 }
 
 impl View {
@@ -107,6 +109,9 @@ impl View {
             if self.sc[t] < o.sc[t] {
                 self.sc[t] = o.sc[t];
             }
+            if self.fz[t] < o.fz[t] {
+                self.fz[t] = o.fz[t];
+            }
         }
     }
     /// does the event (thread t, epoch e) happen-before a point with this view?
@@ -133,6 +138,10 @@ pub struct Loc {
     pub role: Role,
     pub node: usize,
     pub tagged: bool,
+    /// (fence id, mo position its thread had observed here when the fence executed)
+    pub fence_obs: Vec<(usize, usize)>,
+    /// reads made after a SeqCst fence: (fences that happen-before the read, position read)
+    pub fenced_reads: Vec<(Vec<usize>, usize)>,
 }
 
 #[derive(Clone, Copy, PartialEq, Eq, Debug, Hash, Serialize, Deserialize)]
@@ -271,6 +280,8 @@ pub struct State {
     pub race_cells: Vec<RaceCell>,
     pub sc_out: Vec<Vec<usize>>,
     pub sc_ids: Vec<Vec<usize>>,
+    /// per thread: ids (in the SeqCst graph) of its SeqCst fences
+    pub fence_ids: Vec<Vec<usize>>,
     // roles
     pub roles: HashMap<usize, (Role, usize)>,
     pub roles_dirty: bool,
@@ -323,6 +334,7 @@ pub fn rt() -> &'static Rt {
             race_cells: Vec::new(),
             sc_out: Vec::new(),
             sc_ids: Vec::new(),
+            fence_ids: Vec::new(),
             roles: HashMap::new(),
             roles_dirty: false,
             nslots: 9,
@@ -422,6 +434,7 @@ impl State {
         self.race_cells.clear();
         self.sc_out.clear();
         self.sc_ids = (0..=nthreads).map(|_| Vec::new()).collect();
+        self.fence_ids = (0..=nthreads).map(|_| Vec::new()).collect();
         self.roles.clear();
         self.roles.insert(verif::list_head_addr(), (Role::ListHead, 0));
         self.roles_dirty = false;
@@ -509,6 +522,8 @@ impl State {
             role,
             node,
             tagged: false,
+            fence_obs: Vec::new(),
+            fenced_reads: Vec::new(),
         });
         self.locs.insert(addr, l);
         l
@@ -605,6 +620,9 @@ impl State {
                 }
                 Ordering::SeqCst => {
                     self.fence_sc_global(me);
+                    if self.spec.mode == Mode::M2 {
+                        self.sc_fence_event(me);
+                    }
                     self.th[me].rel_fence = Some(self.th[me].view.clone());
                 }
                 _ => {}
@@ -627,6 +645,11 @@ impl State {
                     cands.retain(|&i| i == hi || self.sc_read_allowed(me, l, i));
                     self.stats.sc_blocked += before - cands.len();
                 }
+                if m2 && cands.len() > 1 && self.th[me].view.fz.iter().any(|&n| n > 0) {
+                    let before = cands.len();
+                    cands.retain(|&i| i == hi || self.fence_read_allowed(me, l, i));
+                    self.stats.sc_blocked += before - cands.len();
+                }
                 let stale = self.spec.stale as u32;
                 let k = self.decide_prob(cands.len(), stale);
                 if k > 0 {
@@ -640,6 +663,9 @@ impl State {
                     let m = &self.loc[l].hist[i];
                     (m.val, m.rel.clone())
                 };
+                if m2 {
+                    self.fence_read_commit(me, l, i);
+                }
                 self.th[me].view.set(l, i as u32);
                 self.acquire_from(me, rel, is_acq(a.success));
                 if is_sc(a.success) {
@@ -701,6 +727,10 @@ impl State {
                             self.stats.sc_blocked += 1;
                             continue;
                         }
+                        if m2 && !self.fence_read_allowed(me, l, i) {
+                            self.stats.sc_blocked += 1;
+                            continue;
+                        }
                         cands.push(i);
                     }
                 }
@@ -742,6 +772,9 @@ impl State {
                     self.th[me].spurious_last = false;
                     if i != hi {
                         self.stats.stale_cas += 1;
+                        if m2 {
+                            self.fence_read_commit(me, l, i);
+                        }
                     }
                     self.th[me].view.set(l, i as u32);
                     self.acquire_from(me, rel, is_acq(a.failure));
@@ -782,11 +815,24 @@ impl State {
                 p.push(id);
             }
         }
+        // [atomics.order]/4.3 for events created later: a fence that happens-before a read of an
+        // earlier message precedes this event
+        for (fs, i) in &self.loc[l].fenced_reads {
+            if Self::eco_before(*i, false, pos, writes) {
+                p.extend(fs.iter().copied());
+            }
+        }
         p
     }
 
     fn sc_back(&self, l: usize, pos: usize, writes: bool) -> Vec<usize> {
-        self.loc[l].sc_evs.iter().filter(|&&(_, pb, wb)| Self::eco_before(pos, writes, pb, wb)).map(|&(id, _, _)| id).collect()
+        let mut v: Vec<usize> = self.loc[l].sc_evs.iter().filter(|&&(_, pb, wb)| Self::eco_before(pos, writes, pb, wb)).map(|&(id, _, _)| id).collect();
+        // [atomics.order]/4.2: this event is coherence-ordered before something a thread had
+        // observed before its fence: it precedes that fence
+        if !writes {
+            v.extend(self.loc[l].fence_obs.iter().filter(|&&(_, p)| pos < p).map(|&(y, _)| y));
+        }
+        v
     }
 
     fn sc_reach(&self, from: &[usize], targets: &[usize]) -> bool {
@@ -827,6 +873,76 @@ impl State {
         }
         let preds = self.sc_preds(l, &v, i, false);
         !self.sc_reach(&back, &preds)
+    }
+
+    /// the latest SeqCst fence of every thread that happens-before the current point of `me`
+    fn fences_before(&self, me: usize) -> Vec<usize> {
+        let mut v = Vec::new();
+        for t in 1..self.fence_ids.len() {
+            let n = self.th[me].view.fz[t] as usize;
+            if n > 0 {
+                v.push(self.fence_ids[t][n - 1]);
+            }
+        }
+        v
+    }
+
+    /// [atomics.order]/4.3: a fence X happens-before the read A, A reads message i and is thereby
+    /// coherence-ordered before every SeqCst event B that wrote / read something later: X must
+    /// precede B in S. Not possible if B already reaches X.
+    fn fence_read_allowed(&self, me: usize, l: usize, i: usize) -> bool {
+        let fences = self.fences_before(me);
+        if fences.is_empty() {
+            return true;
+        }
+        let back: Vec<usize> = self.loc[l].sc_evs.iter().filter(|&&(_, pb, wb)| Self::eco_before(i, false, pb, wb)).map(|&(id, _, _)| id).collect();
+        if back.is_empty() {
+            return true;
+        }
+        !self.sc_reach(&back, &fences)
+    }
+
+    fn fence_read_commit(&mut self, me: usize, l: usize, i: usize) {
+        let fences = self.fences_before(me);
+        if fences.is_empty() {
+            return;
+        }
+        let back: Vec<usize> = self.loc[l].sc_evs.iter().filter(|&&(_, pb, wb)| Self::eco_before(i, false, pb, wb)).map(|&(id, _, _)| id).collect();
+        for &x in &fences {
+            for &b in &back {
+                self.sc_out[x].push(b);
+            }
+        }
+        self.loc[l].fenced_reads.push((fences, i));
+    }
+
+    /// A SeqCst fence as an event of the graph: ordered after every SeqCst event that
+    /// happens-before it, and ([atomics.order]/4.2) after every SeqCst event that is
+    /// coherence-ordered before something this thread has already observed (over-approximated by
+    /// the thread's view of each location: more edges = fewer behaviours = still sound).
+    fn sc_fence_event(&mut self, me: usize) {
+        let id = self.sc_out.len();
+        self.sc_out.push(Vec::new());
+        let view = self.th[me].view.clone();
+        for t in 1..self.sc_ids.len() {
+            let n = view.sc[t] as usize;
+            if n > 0 {
+                let p = self.sc_ids[t][n - 1];
+                self.sc_out[p].push(id);
+            }
+        }
+        for l in 0..self.loc.len() {
+            let p = view.get(l) as usize;
+            let evs: Vec<usize> = self.loc[l].sc_evs.iter().filter(|&&(_, pos, wr)| if wr { pos <= p } else { pos < p }).map(|&(e, _, _)| e).collect();
+            for e in evs {
+                self.sc_out[e].push(id);
+            }
+            self.loc[l].fence_obs.push((id, p));
+        }
+        self.sc_ids[me].push(id);
+        self.th[me].view.sc[me] = self.sc_ids[me].len() as u32;
+        self.fence_ids[me].push(id);
+        self.th[me].view.fz[me] = self.fence_ids[me].len() as u32;
     }
 
     fn sc_event(&mut self, me: usize, l: usize, read_idx: Option<usize>, writes: bool) {
